@@ -547,7 +547,116 @@ func c17Twins(o *common.Out, id string, twin string, twinFirst bool) {
 	o.ImplOnly(id, abstract, true)
 }
 
+type c17CloseNote struct{ ch chan struct{} }
+
+func (p *c17CloseNote) ClientConnectionClose(conn net.Conn) error {
+	select {
+	case p.ch <- struct{}{}:
+	default:
+	}
+	return nil
+}
+
+// c17AfterDrop: a first operation over three servers succeeds; then one server drops its connection while nothing is
+// waiting on it, and the client has noticed; the server itself is up.  The next operation contacts every server (the
+// dropped one over a new connection) and all of them answer: Broadcast / Fork succeed, Inform gives three receipts
+// without error.  Oracle only.  case: afterdrop|<first op>|<second op>
+func c17AfterDrop(o *common.Out, id string, op1, op2 byte) {
+	abstract := fmt.Sprintf("afterdrop|%c|%c", op1, op2)
+	o.Begin(id, abstract)
+	o.Count("operation-after-a-dropped-connection")
+	uid := atomic.AddInt64(&c17seq, 1)
+	var fs []*fakeServer
+	var pairs []*client.KVPair
+	var addrs []string
+	for i := 0; i < 3; i++ {
+		addr := fmt.Sprintf("c17d-%d-s%d", uid, i)
+		f := &fakeServer{id: i, fixed: fmt.Sprintf("ok%d", 10*(i+1))}
+		registerFake(addr, f)
+		fs, addrs = append(fs, f), append(addrs, addr)
+		pairs = append(pairs, &client.KVPair{Key: "vsrv@" + addr})
+	}
+	defer func() {
+		for _, a := range addrs {
+			unregisterFake(a)
+		}
+	}()
+	d, _ := client.NewMultipleServersDiscovery(pairs)
+	opt := client.DefaultOption
+	opt.SerializeType = protocol.JSON
+	opt.Heartbeat = false
+	xc := client.NewXClient("Svc", client.Failfast, client.RandomSelect, d, opt)
+	defer xc.Close()
+	note := &c17CloseNote{ch: make(chan struct{}, 8)}
+	pc := client.NewPluginContainer()
+	pc.Add(note)
+	xc.SetPlugins(pc)
+	run := func(op byte) string {
+		ctx, cancel := context.WithTimeout(context.Background(), 5*time.Second)
+		defer cancel()
+		var reply int
+		switch op {
+		case 'B':
+			if err := xc.Broadcast(ctx, "M", 1, &reply); err != nil {
+				return "Broadcast returned " + err.Error()
+			}
+		case 'F':
+			if err := xc.Fork(ctx, "M", 1, &reply); err != nil {
+				return "Fork returned " + err.Error()
+			}
+		default:
+			rs, err := xc.Inform(ctx, "M", 1, &reply)
+			if err != nil || len(rs) != 3 {
+				return fmt.Sprintf("Inform returned %d receipts and %v", len(rs), err)
+			}
+			for _, rc := range rs {
+				if rc.Error != nil {
+					return fmt.Sprintf("the receipt of %s carries %v", rc.Address, rc.Error)
+				}
+			}
+		}
+		return ""
+	}
+	if bad := run(op1); bad != "" {
+		o.Fail(id, "rig", "the first operation, every server up: "+bad, abstract)
+		return
+	}
+	// server 1 drops its connections (it stays up); the client's reader notices
+	fs[1].mu.Lock()
+	conns := fs[1].conns
+	fs[1].conns = nil
+	fs[1].mu.Unlock()
+	for _, c := range conns {
+		c.Close()
+	}
+	select {
+	case <-note.ch:
+	case <-time.After(3 * time.Second):
+		o.ImplOnly(id, abstract, false) // nothing was noticed: nothing to look at
+		return
+	}
+	if bad := run(op2); bad != "" {
+		sig := map[byte]string{'B': "broadcast-verdict", 'F': "fork-verdict", 'I': "inform-receipt"}[op2]
+		o.Fail(id, sig, "every server is up and answers (one of them had dropped an idle connection before): "+bad, abstract)
+	}
+	o.ImplOnly(id, abstract, true)
+}
+
 func runC17(r *common.Rand, tier string, o *common.Out, replay string) {
+	if strings.HasPrefix(replay, "afterdrop|") {
+		p := strings.Split(replay, "|")
+		c17AfterDrop(o, "replay", p[1][0], p[2][0])
+		return
+	}
+	if replay == "" {
+		k := 0
+		for _, op1 := range []byte{'B', 'F', 'I'} {
+			for _, op2 := range []byte{'B', 'I', 'F'} {
+				k++
+				c17AfterDrop(o, fmt.Sprintf("ad%d", k), op1, op2)
+			}
+		}
+	}
 	if strings.HasPrefix(replay, "twins|") {
 		p := strings.Split(replay, "|")
 		c17Twins(o, "replay", p[1], p[2] == "true")
